@@ -11,6 +11,9 @@ HEADER = ("From Coq Require Import List String NArith Bool Arith.\n"
           "Import ListNotations.\nOpen Scope string_scope.\nOpen Scope list_scope.\n")
 CT = "(list (string * rhs) * list msg * list msg * bool)"
 PT = "(list (string * rhs) * list msg * list msg * bool * list (msg * msg))"
+KNOWN_NULL = ("empty-deriving-nonterminal-not-completed: the forecaster re-parses the history with the Earley parser, which does not complete an empty-deriving "
+              "nonterminal in every case (C05 nullable-reprediction): with such a control nonterminal a full interaction is not reported complete, or continuations "
+              "after the empty derivation are not offered")
 KNOWN_MERGE = ("options-merged-over-recipients: ForecastingNonTerminals keeps one packet per (sender, message type); when a grammar sends one message type "
                "from one sender to different recipients at different places, the options are merged and carry the recipient of the first one found")
 
@@ -66,9 +69,8 @@ RECIPIENTS = {"Fuzzer": ["Extern", "Third", None], "Extern": ["Fuzzer", None], "
 def msg_ref(rng, used):
     nt, s, r = rng.choice(MSGS[: rng.choice([2, 3, 4, 6])])
     used.add(nt)
-    if rng.random() < 0.3:
-        # the same message type of the same sender may go to different recipients at different places of the grammar
-        r = rng.choice(RECIPIENTS[s])
+    # (one message type of one sender going to different recipients is exercised by the fixed grammars only: on random grammars of that kind
+    #  the recorded finding options-merged-over-recipients makes the history trees themselves ambiguous)
     return f"<{s}:{r}:{nt[1:-1]}>" if r else f"<{s}:{nt[1:-1]}>"
 
 
@@ -193,6 +195,9 @@ def gen_worker(args):
                 res.bump("sliced_grammar")
             rx = c15.RuleExport(g, [], set(names))
             fc = PacketForecaster(g)
+            import earley
+            nul = earley.nullable_map(g)[0]
+            nullable_control = sorted(k.name() for k, v in nul.items() if v and k.name() in names)
         except Exception as e:
             res.bump("spec_skipped_" + type(e).__name__)
             continue
@@ -210,7 +215,7 @@ def gen_worker(args):
             judged_complete = complete if hist else None
             terms.append((rx.term(), hist, opts, complete))
             infos.append({"spec": spec.split("class Fuzzer")[0], "sliced_to": sorted(sliced) if sliced else None, "history": hist, "offered": opts,
-                          "reported_complete": complete})
+                          "reported_complete": complete, "nullable_control_nonterminals": nullable_control})
             res.count(("forecast", spec, tuple(sorted(sliced)) if sliced else None, tuple(hist)), nontrivial=len(hist) >= 1)
             res.bump("history_len_%d" % len(hist))
     if infos:
@@ -242,7 +247,7 @@ def correspondence(res):
     import re as _re
     proj_idx, proj_terms = [], []
     for i, (code, ((rules, hist, opts, complete), inf)) in enumerate(zip(codes, pairs)):
-        if code in (0, 2) and not (code == 2 and not hist):
+        if code in (0, 2, 3) and not (code == 2 and not hist):
             refs = set(_re.findall(r"<(\w+):(?:(\w+):)?(\w+)>", inf["spec"]))
             by = {}
             for s_, r_, n_ in refs:
@@ -262,6 +267,11 @@ def correspondence(res):
             raise Broken("evaluation failed (case file)", repr(inf)[:500])
         if code == 1 or (code == 2 and not hist):
             ok += 1
+            continue
+        if (inf.get("nullable_control_nonterminals") and (code == 3 or (code == 2 and not complete))
+                and "empty-deriving-nonterminal-not-completed" in sigs):
+            res.known(KNOWN_NULL)
+            res.bump("known_nullable_control_nonterminal")
             continue
         if code == 5:
             res.bump("model_gave_up_recursive_grammar")
